@@ -7,6 +7,7 @@ source).  All hold for every dataset (no size bound), any number of groups, ever
 "Every group contains both labels" is `BothLabels groups`; a successful fit implies it.
 -/
 import FairModel.Lemmas.ThresholdFit
+import FairModel.Lemmas.ThresholdPredict
 
 namespace C04
 open Threshold ThresholdGen
@@ -247,7 +248,7 @@ theorem parity_EO (flip : Bool) (obj : Metric) (N : Nat) (groups : List (List Ro
   have hry_min : yBest ≤ best[j].y := hyle _ (List.mem_map.mpr ⟨best[j], List.getElem_mem hjb, rfl⟩)
   refine ⟨by rw [ex]; ring, ?_, pIgnore best[j] yBest, gridVal N fit.iBest, rfl, ?_, ?_, rfl⟩
   · rw [ey]
-    unfold pIgnore
+    rw [src_pIgnore]
     by_cases hd : best[j].y = best[j].x
     · rw [if_pos hd]
       have : best[j].y = yBest := le_antisymm (by rw [hd, hrx]; exact hyB) hry_min |>.symm ▸ rfl
@@ -255,20 +256,71 @@ theorem parity_EO (flip : Bool) (obj : Metric) (N : Nat) (groups : List (List Ro
     · rw [if_neg hd]
       have hne : best[j].y - best[j].x ≠ 0 := sub_ne_zero.mpr hd
       rw [← hrx]; field_simp; ring
-  · unfold pIgnore
+  · rw [src_pIgnore]
     by_cases hd : best[j].y = best[j].x
     · rw [if_pos hd]
     · rw [if_neg hd]
       have : 0 < best[j].y - best[j].x := by
         rw [hrx]; exact lt_of_le_of_ne (by linarith) (fun h => hd (by rw [hrx]; linarith))
       exact div_nonneg (by linarith) (le_of_lt this)
-  · unfold pIgnore
+  · rw [src_pIgnore]
     by_cases hd : best[j].y = best[j].x
     · rw [if_pos hd]; exact zero_le_one
     · rw [if_neg hd]
       have : 0 < best[j].y - best[j].x := by
         rw [hrx]; exact lt_of_le_of_ne (by linarith) (fun h => hd (by rw [hrx]; linarith))
       rw [div_le_one this]; rw [hrx]; linarith
+
+/-! ### Fit → predict: the parity theorems are about the pmf that `predict` really uses
+
+`ThresholdPredict.dictOf names fit.rules` is the `interpolation_dict` the fit stores (one Bunch per sensitive-feature value),
+`Pmf.thrPositive` is `InterpolatedThresholder._pmf_predict` (both over the expressions lifted from the source), and
+`predictedMetric m dict name rows` the expected value of metric `m` when every row of `rows` is predicted 1 with the
+probability `_pmf_predict` reports for it under sensitive-feature value `name`. -/
+
+open ThresholdPredict in
+/-- **fit_predict_consistent_simple**: computed from `_pmf_predict` of the fitted model on the training rows, every
+    group's expected constrained metric is exactly `x_best = iBest / N` and its expected objective metric is the `y` of the
+    group's interpolated curve at `x_best` -/
+theorem fit_predict_consistent_simple (flip : Bool) (xm ym : Metric) (N : Nat) (groups : List (List Row))
+    (force : Option Nat) (fit : Fit) (names : List String) (hN : 1 ≤ N) (hx : IsConstraintMetric xm)
+    (hfit : fitSimple flip xm ym N groups force = some fit) (hnd : names.Nodup) (hlen : names.length = groups.length) :
+    fit.interps.length = groups.length ∧
+    ∀ j (hj : j < groups.length) (hn : j < names.length) (hi : j < fit.interps.length),
+      predictedMetric xm (dictOf names fit.rules) names[j] groups[j] = gridVal N fit.iBest ∧
+      predictedMetric ym (dictOf names fit.rules) names[j] groups[j] = fit.interps[j].y := by
+  obtain ⟨hulls, cs, best, hh, hc, hb, hint, hrules, _, _⟩ := fitSimple_some hfit
+  obtain ⟨hi, hbest⟩ := List.getElem?_eq_some_iff.mp hb
+  obtain ⟨hrow, hent⟩ := curves_entry hx hh hN hc fit.iBest hi
+  have hlenh := (hullsOf_some hh).1
+  rw [hbest] at hrow hent
+  have hrl : fit.rules.length = groups.length := by rw [hrules]; simp [hrow]
+  refine ⟨by rw [hint]; exact hrow, ?_⟩
+  intro j hj hn hji
+  have hjb : j < best.length := by omega
+  obtain ⟨gc, hs⟩ := hent j hj hjb (by omega)
+  have hr : fit.rules[j]'(by omega) = simpleRule best[j] := by simp [hrules]
+  have hib : fit.interps[j] = best[j] := by simp [hint]
+  rw [predictedMetric_eq xm names fit.rules hnd (by omega) j hn (by omega),
+      predictedMetric_eq ym names fit.rules hnd (by omega) j hn (by omega), hr, hib]
+  exact expected_simple gc hs
+
+open ThresholdPredict in
+/-- **fit_predict_consistent_EO**: computed from `_pmf_predict` of the fitted model (interpolation mixed with the
+    constant `prediction_constant = x_best` with weight `p_ignore`) on the training rows, every group's expected false
+    positive rate is exactly `x_best` and its expected true positive rate exactly `y_best` -/
+theorem fit_predict_consistent_EO (flip : Bool) (obj : Metric) (N : Nat) (groups : List (List Row))
+    (force : Option Nat) (fit : Fit) (yBest : Rat) (names : List String) (hN : 1 ≤ N)
+    (hfit : fitEO flip obj N groups force = some (fit, yBest)) (hnd : names.Nodup)
+    (hlen : names.length = groups.length) :
+    ∀ j (hj : j < groups.length) (hn : j < names.length),
+      predictedMetric eoXMetric (dictOf names fit.rules) names[j] groups[j] = gridVal N fit.iBest ∧
+      predictedMetric eoYMetric (dictOf names fit.rules) names[j] groups[j] = yBest := by
+  obtain ⟨_, _, hrl, hpar⟩ := parity_EO flip obj N groups force fit yBest hN hfit
+  intro j hj hn
+  rw [predictedMetric_eq eoXMetric names fit.rules hnd (by omega) j hn (by omega),
+      predictedMetric_eq eoYMetric names fit.rules hnd (by omega) j hn (by omega)]
+  exact ⟨(hpar j hj (by omega)).1, (hpar j hj (by omega)).2.1⟩
 
 /-! ### Non-vacuity: a 3-group example with ties and a vertical first hull segment, evaluated by the kernel -/
 
@@ -299,5 +351,17 @@ example : (fitEO false .accuracy_score 4 ex none).map (fun f => f.1.rules.map (f
 example : (fitEO false .accuracy_score 4 ex none).map (fun f =>
       List.zipWith (fun r g => (expectedMetric .false_positive_rate r g, expectedMetric .true_positive_rate r g))
         f.1.rules ex) = some [(1/4, 1/2), (1/4, 1/2), (1/4, 1/2)] := by decide +kernel
+
+-- fit → predict: the same numbers computed from `_pmf_predict` of the stored interpolation_dict (keys "a", "b", "c")
+example : (fitEO false .accuracy_score 4 ex none).map (fun f =>
+      List.zipWith (fun n g =>
+        (ThresholdPredict.predictedMetric .false_positive_rate (ThresholdPredict.dictOf ["a", "b", "c"] f.1.rules) n g,
+         ThresholdPredict.predictedMetric .true_positive_rate (ThresholdPredict.dictOf ["a", "b", "c"] f.1.rules) n g))
+        ["a", "b", "c"] ex) = some [(1/4, 1/2), (1/4, 1/2), (1/4, 1/2)] := by decide +kernel
+-- unseen scores (7/8; 3/4 = exactly a fitted threshold) and an unseen group under the fitted equalized-odds model
+example : (fitEO false .accuracy_score 4 ex none).map (fun f =>
+      (ThresholdPredict.predictPmf ["a", "b", "c"] f.1 [("a", 7/8), ("a", 3/4), ("b", 5/8), ("zz", 1)]).map (·.2)) =
+    some [4/7, 5/14, 1/2, 0] := by
+  decide +kernel
 
 end C04
